@@ -184,6 +184,7 @@ type SolverResult struct {
 	Ms     int64
 	Output string // transcript (truncated)
 	Model  map[string]string
+	Values []string // positional get-value answers
 	All    []string // per-solver one-line summaries
 }
 
@@ -220,6 +221,9 @@ func runOne(ctx context.Context, sp solverSpec, file string, tsec int) (string, 
 	switch first {
 	case "unsat", "sat", "unknown", "timeout":
 	default:
+		if strings.Contains(s, "(error ") {
+			return "error", s, ms
+		}
 		if cctx.Err() != nil {
 			first = "timeout"
 		} else if strings.Contains(s, "timeout") {
@@ -248,6 +252,7 @@ func Solve(file string, tsec int, thorough bool) SolverResult {
 			res.Status, res.Solver, res.Ms, res.Output = st, solvers[0].name, ms, trunc(out, 4000)
 			if st == "sat" {
 				res.Model = parseModel(out)
+				res.Values = parseValues(out)
 			}
 			return res
 		}
@@ -290,6 +295,7 @@ func Solve(file string, tsec int, thorough bool) SolverResult {
 	case satR != nil:
 		res.Status, res.Solver, res.Ms, res.Output = "sat", satR.name, satR.ms, trunc(satR.out, 4000)
 		res.Model = parseModel(satR.out)
+		res.Values = parseValues(satR.out)
 	case unsatR != nil:
 		res.Status, res.Solver, res.Ms, res.Output = "unsat", unsatR.name, unsatR.ms, "unsat"
 	default:
@@ -304,6 +310,86 @@ func trunc(s string, n int) string {
 		return s[:n] + "…"
 	}
 	return s
+}
+
+// parseValues reads a (get-value ...) answer positionally: one value per requested term.
+func parseValues(out string) []string {
+	idx := strings.Index(out, "\n")
+	if idx < 0 {
+		return nil
+	}
+	s := out[idx+1:]
+	// find the outer list
+	i := strings.Index(s, "(")
+	if i < 0 {
+		return nil
+	}
+	pos := i + 1
+	var vals []string
+	readSexp := func() string {
+		for pos < len(s) && (s[pos] == ' ' || s[pos] == '\n' || s[pos] == '\t' || s[pos] == '\r') {
+			pos++
+		}
+		if pos >= len(s) {
+			return ""
+		}
+		st := pos
+		if s[pos] == '(' {
+			d := 0
+			inbar := false
+			for pos < len(s) {
+				c := s[pos]
+				if c == '|' {
+					inbar = !inbar
+				} else if !inbar {
+					if c == '(' {
+						d++
+					} else if c == ')' {
+						d--
+						if d == 0 {
+							pos++
+							break
+						}
+					}
+				}
+				pos++
+			}
+			return s[st:pos]
+		}
+		if s[pos] == '|' {
+			pos++
+			for pos < len(s) && s[pos] != '|' {
+				pos++
+			}
+			pos++
+			return s[st:pos]
+		}
+		for pos < len(s) && s[pos] != ' ' && s[pos] != ')' && s[pos] != '(' && s[pos] != '\n' {
+			pos++
+		}
+		return s[st:pos]
+	}
+	for pos < len(s) {
+		for pos < len(s) && (s[pos] == ' ' || s[pos] == '\n') {
+			pos++
+		}
+		if pos >= len(s) || s[pos] != '(' {
+			break
+		}
+		pos++ // open pair
+		_ = readSexp()
+		v := readSexp()
+		for pos < len(s) && s[pos] != ')' {
+			pos++
+		}
+		pos++
+		v = strings.TrimSpace(v)
+		if strings.HasPrefix(v, "(-") {
+			v = "-" + strings.TrimSpace(strings.TrimSuffix(strings.TrimPrefix(v, "(-"), ")"))
+		}
+		vals = append(vals, v)
+	}
+	return vals
 }
 
 var modelRe = regexp.MustCompile(`\(\s*(\|[^|]*\||[^\s()]+)\s+((?:\(-\s*\d+\))|(?:-?\d+)|true|false)\s*\)`)
@@ -334,6 +420,7 @@ type SMTFile struct {
 	Assumes []string
 	Goal    string
 	Values  []string // terms to get-value on sat
+	ValueNames []string
 }
 
 func (f *SMTFile) Render() string {
